@@ -382,6 +382,94 @@ def r_dropped_failure(view):
 
 
 # ---------------------------------------------------------------------------
+# C12 item 2: no carry component dropped (field-sensitive def-use on the monomorphic MIR)
+# ---------------------------------------------------------------------------
+def _ops_of_rvalue(rv):
+    k = rv.get("rv")
+    if k in ("use", "un", "cast", "repeat"):
+        return [rv["a"]]
+    if k == "bin":
+        return [rv["a"], rv["b"]]
+    if k == "agg":
+        return list(rv["ops"])
+    return []
+
+
+def _place_reads(m):
+    """yield every place that is read in instance m (operands, ref/discriminant places, switch/assert/call operands)"""
+    for b in m["blocks"]:
+        for s in b["s"]:
+            if s["k"] != "assign":
+                continue
+            rv = s["rv"]
+            for o in _ops_of_rvalue(rv):
+                pl = o.get("copy") or o.get("move")
+                if pl:
+                    yield pl
+            if rv.get("rv") in ("ref", "rawptr", "discr") and rv.get("place"):
+                yield rv["place"]
+        t = b["t"]
+        ops = []
+        if t["k"] == "call":
+            ops = t["args"]
+        elif t["k"] == "switch":
+            ops = [t["d"]]
+        elif t["k"] == "assert":
+            ops = [t["cond"]]
+        for o in ops:
+            pl = o.get("copy") or o.get("move") if isinstance(o, dict) else None
+            if pl:
+                yield pl
+
+
+def r_carry_components_used(facts, krate="minimal_lexical", fn_prefix="minimal_lexical::bigint::"):
+    """For every call (inside functions whose dpath starts with fn_prefix) to an integer `overflowing_*` method or to a function of the
+    same module that returns a tuple of two integers/bools (scalar_add, scalar_mul: value + carry), every component of the returned tuple
+    is read somewhere in the caller, or the tuple is passed on whole (returned / moved).  A component that is never read is a carry that
+    has been dropped."""
+    hits, n = [], 0
+    for m in facts.mono.values():
+        if m.get("krate") != krate or "blocks" not in m or not m["dpath"].startswith(fn_prefix):
+            continue
+        reads = list(_place_reads(m))
+        for b in m["blocks"]:
+            t = b["t"]
+            if t["k"] != "call" or t.get("callee") is None:
+                continue
+            c = facts.mono.get(t["callee"])
+            if c is None:
+                continue
+            cp = nz(c["path"])
+            is_ovf = ".overflowing_" in cp.replace("::overflowing_", ".overflowing_") and cp.startswith("core::num::")
+            is_scalar = c.get("krate") == krate and c["dpath"].startswith(fn_prefix)
+            dty = t["dest"]["ty"]
+            if not (is_ovf or is_scalar) or dty.get("k") != "tuple" or len(dty["elems"]) != 2:
+                continue
+            if not all(e.get("k") in ("int", "bool") for e in dty["elems"]):
+                continue
+            n += 1
+            d = t["dest"]
+            if d["l"] == 0 and not d["p"]:
+                continue                                   # returned whole
+            used = set()
+            whole = False
+            for pl in reads:
+                if pl["l"] != d["l"] or pl["p"][:len(d["p"])] != d["p"]:
+                    continue
+                rest = pl["p"][len(d["p"]):]
+                if not rest:
+                    whole = True
+                elif isinstance(rest[0], dict) and "f" in rest[0]:
+                    used.add(rest[0]["f"])
+            if whole:
+                continue
+            for i in (0, 1):
+                if i not in used:
+                    hits.append(Hit(nz(m["path"]), "component .%d of the result of `%s` is never read: `%s`" % (i, cp, (t.get("span") or {}).get("snip", "")[:70]), t.get("span")))
+    return hits, n
+
+
+# ---------------------------------------------------------------------------
 # C08 item 1 / C13 item 1: inventories
 # ---------------------------------------------------------------------------
 def unsafe_inventory(view):
